@@ -1139,7 +1139,7 @@ static void exec_des(Run &r, int t, int i, const J &op) {
     std::vector<char> kb(key.begin(), key.end());
     thr::region_add(kb.data(), 64, t, "des-key-vector");
     thr::api_boundary(t, i, true);
-    deepcall(t, [&]() { if (obj) _crypt_setkey_r(kb.data(), obj->cd); else _crypt_setkey(kb.data()); }, false);
+    deepcall(t, [&]() { errno = (int)op.i("errno0", 0); if (obj) _crypt_setkey_r(kb.data(), obj->cd); else _crypt_setkey(kb.data()); }, false);
     thr::api_boundary(t, i, false);
     thr::region_del(kb.data());
     if (obj) { pack64(key, obj->key); obj->key_state = 1; obj->state = "scribbled"; } else { pack64(key, r.skey); r.skey_state = 1; }
@@ -1159,7 +1159,7 @@ static void exec_des(Run &r, int t, int i, const J &op) {
     }
     thr::region_add(bb.data(), 64, t, "des-block-vector");
     thr::api_boundary(t, i, true);
-    deepcall(t, [&]() { if (obj) _crypt_encrypt_r(bb.data(), flag, obj->cd); else _crypt_encrypt(bb.data(), flag); }, false);
+    deepcall(t, [&]() { errno = (int)op.i("errno0", 0); if (obj) _crypt_encrypt_r(bb.data(), flag, obj->cd); else _crypt_encrypt(bb.data(), flag); }, false);   // errno is arbitrary at entry here too
     thr::api_boundary(t, i, false);
     thr::region_del(bb.data());
     std::string out(bb.begin(), bb.end());
